@@ -1689,7 +1689,9 @@ func (t *tScreen) parseRune(buf *bytes.Buffer, evs *[]Event) (bool, bool) {
 	utf := make([]byte, 12)
 	for l := 1; l <= len(b); l++ {
 		t.decoder.Reset()
-		nOut, nIn, e := t.decoder.Transform(utf, b[:l], true)
+		// not at EOF: a truncated multi-byte character must report
+		// ErrShortSrc rather than decode to a replacement rune
+		nOut, nIn, e := t.decoder.Transform(utf, b[:l], false)
 		if e == transform.ErrShortSrc {
 			continue
 		}
